@@ -1,6 +1,7 @@
 package drv
 
 import (
+	"bytes"
 	"encoding/base64"
 	"encoding/hex"
 	"encoding/json"
@@ -559,23 +560,58 @@ func codecSdp(tw *TraceWriter, sc *codecScenario) {
 	got := false
 	if sc.Via == "remux" {
 		r := remux.NewRtmp2RtspRemuxer(func(c sdp.LogicContext) { ctx = c; got = true }, func(pkt rtprtcp.RtpPacket) {})
+		// as rtmp.ChunkComposer does: one buffer per chunk stream, reused for the next message of that stream - whatever
+		// the remuxer keeps of a message must be a copy of its own
+		bufs := map[uint8][]byte{}
 		feed := func(typ uint8, p []byte) {
-			r.FeedRtmpMsg(base.RtmpMsg{Header: base.RtmpHeader{MsgTypeId: typ, MsgLen: uint32(len(p))}, Payload: p})
+			b := append(bufs[typ][:0], p...)
+			bufs[typ] = b
+			r.FeedRtmpMsg(base.RtmpMsg{Header: base.RtmpHeader{MsgTypeId: typ, MsgLen: uint32(len(b))}, Payload: b})
+			for i := range b {
+				b[i] ^= 0x5a
+			}
 		}
-		switch sc.A {
-		case "AAC":
-			feed(base.RtmpTypeIdAudio, append([]byte{0xaf, 0}, orig["asc"]...))
-		case "PCMA":
-			feed(base.RtmpTypeIdAudio, []byte{0x72, 0x55, 0x55, 0x55})
-		case "PCMU":
-			feed(base.RtmpTypeIdAudio, []byte{0x82, 0x55, 0x55, 0x55})
-		case "OPUS":
-			feed(base.RtmpTypeIdAudio, []byte{0xd2, 0x55, 0x55, 0x55})
+		audio := func() {
+			switch sc.A {
+			case "AAC":
+				feed(base.RtmpTypeIdAudio, append([]byte{0xaf, 0}, orig["asc"]...))
+			case "PCMA":
+				feed(base.RtmpTypeIdAudio, []byte{0x72, 0x55, 0x55, 0x55})
+			case "PCMU":
+				feed(base.RtmpTypeIdAudio, []byte{0x82, 0x55, 0x55, 0x55})
+			case "OPUS":
+				feed(base.RtmpTypeIdAudio, []byte{0xd2, 0x55, 0x55, 0x55})
+			}
 		}
-		if sc.V == "H264" {
-			feed(base.RtmpTypeIdVideo, proj.WriteAvcSeqHeader(orig["sps"], orig["pps"]))
-		} else {
-			feed(base.RtmpTypeIdVideo, proj.WriteHevcSeqHeader(orig["vps"], orig["sps"], orig["pps"]))
+		video := func() {
+			if sc.V == "H264" {
+				feed(base.RtmpTypeIdVideo, proj.WriteAvcSeqHeader(orig["sps"], orig["pps"]))
+			} else {
+				feed(base.RtmpTypeIdVideo, proj.WriteHevcSeqHeader(orig["vps"], orig["sps"], orig["pps"]))
+			}
+		}
+		frames := func(n int) {
+			hd := byte(0x17)
+			if sc.V != "H264" {
+				hd = 0x1c
+			}
+			for i := 0; i < n && !got; i++ {
+				feed(base.RtmpTypeIdVideo, append([]byte{hd, 1, 0, 0, 0, 0, 0, 0, 40}, bytes.Repeat([]byte{0x65, byte(i)}, 20)...))
+			}
+		}
+		// the order of the first messages (by scenario): audio header first; video header, pictures, then a late audio
+		// header; pictures only until the remuxer stops waiting for a second track
+		switch {
+		case sc.A == "" || sc.A == "none":
+			video()
+			frames(40)
+		case sc.Sc%2 == 0:
+			audio()
+			video()
+		default:
+			video()
+			frames(3)
+			audio()
 		}
 		if !got {
 			err = fmt.Errorf("no sdp")
